@@ -306,7 +306,6 @@ OUTSIDE_MODEL = {
     "C18f": "inheritance rewritten as self-recursion: the rule models the loop form of the chain walk only (the corrected version FC18f is refused in the same way)",
     "C15f": "hook selection memoised per (hook point, time) with invalidation in _add_event: a selection that reads a cache is not the modelled `hooks[None] ++ hooks[time]`",
     "C13j": "hook selection memoised per hook point with invalidation in _add_event (as C15f): a selection that reads a cache is not the modelled `hooks[None] ++ hooks[time]`",
-    "C01k": "comparator extended by a priority class compared before the price: `priority` is not an atom of the order-only model (the default value makes it invisible, which the table cannot know)",
     "C03f": "reaper rebuilds the queue by a filter over a list left over from the bucket loop: the rules trace single removals (`remove(order)`) to their bucket, a rebuilt queue is not modelled (the first version of the rule reported it for the wrong reason: no remove call found)",
     "C01m": "comparator works on a price sign cached at construction: `_price_sign` is not an atom of the order-only model (that it can go stale when the side is rewritten before acceptance is a fact about other code)",
     "C04n": "heap deletion by moving the last leaf into the hole with an off-by-one bound on the index: arithmetic on positions in the heap array, not shape",
@@ -320,6 +319,7 @@ OUTSIDE_MODEL = {
     "C11j": "call backs made only for agents found in a table of `listeners` filled at registration: a conditional call back is refused; whether the skipped calls are exactly the no-op ones depends on how the table is filled (FC11j walks the MRO, same shape)",
     "C11k": "call backs made only if the agent accepts the kind of notification (new optional setting): as C11j",
     "C14j": "step hooks dispatched only at times found in a set collected at session start: a conditional trigger is refused; whether the skipped steps have no hook depends on how the set is collected (FC14j uses a live view of the registry, same shape)",
+    "C20q": "chart-following flag moved to a class attribute and its sign cached in the constructor: the chart term no longer reads the instance's flag where the rule looks for it; whether the cached sign can go stale is a question about later writers of the flag",
 }
 
 # --------------------------------------------------------------------------- seeded patches
